@@ -1,6 +1,8 @@
 import AkVerif.Lemmas.XlsRows
 import AkVerif.Lemmas.XlsSort
 import AkVerif.Lemmas.XlsCoord
+import AkVerif.Lemmas.XlsWf
+import AkVerif.Lemmas.XlsConv
 /-!
 # C18 — objects read from a sheet match their source cells
 
@@ -461,6 +463,127 @@ theorem fill_total (stop : Stop) (n : Nat) (s : Sheet) (hrect : ∀ r ∈ s, r.l
     · exact ⟨row :: r, by simp [hr]⟩
     · exact ⟨row :: r2, by simp [hr2]⟩
 
+/-- `read_table` is `list(iter_table(…))`: it returns exactly the results `iter_table` yields when no
+exception ends the iteration (so every theorem above speaks about its result), and otherwise raises
+that exception. `TableReader.read_list` is `read_table` with the default end rule, never a ladder. -/
+theorem read_table_sound {V : Type} (cv : Conv V) (cfg : Cfg V) (s : Sheet) :
+    (∀ objs, readTable cv cfg s = .ok objs ↔ iterTable cv cfg s = ⟨objs, none⟩) ∧
+    (∀ e, readTable cv cfg s = .error e ↔ ∃ objs, iterTable cv cfg s = ⟨objs, some e⟩) ∧
+    (∀ numId rules, readList cv numId rules s = readTable cv ⟨.blankAll, false, numId, rules⟩ s) := by
+  refine ⟨?_, ?_, fun _ _ => rfl⟩
+  · intro objs
+    unfold readTable readAll
+    cases h : iterTable cv cfg s with
+    | mk o e =>
+      cases e with
+      | none => simp
+      | some e => simp
+  · intro e
+    unfold readTable readAll
+    cases h : iterTable cv cfg s with
+    | mk o e' =>
+      cases e' with
+      | none => simp
+      | some e' => simp
+
+/-- No spurious exceptions. On a well-formed request — a rectangular sheet with at least one column,
+the first attribute and every key attribute read from a column that exists, a key not longer than
+the attribute list, converters that fail with `ValueError` only — the iteration either runs to the
+end of the table or is ended by `ValueError` (a missing required column or a cell its converter
+rejects): no `IndexError`, `AttributeError`, `AssertionError`, `TypeError` or `KeyError`. -/
+theorem only_value_errors {V : Type} (cv : Conv V) (cfg : Cfg V) (n : Nat) (hn : 0 < n) (s : Sheet)
+    (hrect : ∀ r ∈ s, r.length = n) (hw : RulesOk cv cfg (titlesOf s)) :
+    (iterTable cv cfg s).err = none ∨ (iterTable cv cfg s).err = some .valueError := by
+  cases h : (iterTable cv cfg s).err with
+  | none => exact Or.inl rfl
+  | some e => rw [iterTable_error_wf cv cfg n hn s hrect hw e h]; exact Or.inr rfl
+
+/-- The converters of the package (`stdConvFn`; the driver runs `iterTable stdConv`), spelled out:
+`cell_str`, `cell_int`, `cell_bool` (tables generated from the source), `cell_list`, `cell_set`. -/
+theorem std_conv_spec (v : Val) :
+    stdConvFn 0 v = (match v with | .blank => .ok .none | v => .ok (.str (strip v.str))) ∧
+    stdConvFn 1 v = (match v with | .blank => .ok .none | .int n => .ok (.int n)
+                                  | .text _ => .error .valueError) ∧
+    stdConvFn 2 v =
+      (if inTable Gen.C18.trueInts Gen.C18.trueStrs Gen.C18.trueNone v then .ok (.bool true)
+       else if inTable Gen.C18.falseInts Gen.C18.falseStrs Gen.C18.falseNone v then .ok (.bool false)
+       else .error .valueError) ∧
+    stdConvFn 6 v = (match v with | .blank => .ok .none | .text s => .ok (.list (listItems s))
+                                  | .int _ => .error .valueError) ∧
+    stdConvFn 7 v = (match v with | .blank => .ok .none | .text s => .ok (.set (setOf (listItems s)))
+                                  | .int _ => .error .valueError) := by
+  refine ⟨?_, ?_, rfl, ?_, ?_⟩ <;> cases v <;> simp [stdConvFn]
+
+/-- … and what their results look like: a string value is stripped (stripping it again changes
+nothing: no leading or trailing white space), every item of a list / set value is non-empty,
+stripped and free of `,` and newline; a failed conversion is always a `ValueError`. -/
+theorem std_conv_shape (ct : Nat) (hct : ct ≤ 8) (v : Val) :
+    (∀ s, stdConvFn ct v = .ok (.str s) → strip s = s) ∧
+    (∀ l, stdConvFn ct v = .ok (.list l) ∨ stdConvFn ct v = .ok (.set l) →
+      ∀ i ∈ l, i ≠ [] ∧ strip i = i ∧ ',' ∉ i ∧ '\n' ∉ i) ∧
+    (∀ e, stdConvFn ct v = .error e → e = .valueError) := by
+  refine ⟨?_, ?_, fun e h => stdConv_error ct hct v e h⟩
+  · intro s h
+    unfold stdConvFn at h
+    match ct, hct with
+    | 0, _ | 3, _ =>
+      simp only [] at h
+      split at h
+      · cases h
+      · cases v <;> simp at h <;> (subst h; first | rfl | exact strip_strip _)
+    | 5, _ => cases v <;> simp at h <;> (subst h; first | rfl | exact strip_strip _)
+    | 1, _ | 4, _ =>
+      simp only [] at h
+      split at h
+      · cases h
+      · cases v <;> simp at h
+    | 2, _ =>
+      simp only [] at h
+      split at h
+      · cases h
+      · split at h <;> cases h
+    | 6, _ | 7, _ | 8, _ => cases v <;> simp at h
+  · intro l h i hi
+    unfold stdConvFn at h
+    match ct, hct with
+    | 0, _ | 3, _ =>
+      simp only [] at h
+      rcases h with h | h <;> (split at h; cases h; cases v <;> simp at h)
+    | 5, _ => rcases h with h | h <;> (cases v <;> simp at h)
+    | 1, _ | 4, _ =>
+      simp only [] at h
+      rcases h with h | h <;> (split at h; cases h; cases v <;> simp at h)
+    | 2, _ =>
+      simp only [] at h
+      rcases h with h | h <;> (split at h; cases h; split at h <;> cases h)
+    | 6, _ | 8, _ =>
+      rcases h with h | h
+      · cases v with
+        | blank => simp at h; try (subst h; cases hi)
+        | int n => simp at h
+        | text s => simp at h; subst h; exact listItems_spec s i hi
+      · cases v <;> simp at h
+    | 7, _ =>
+      rcases h with h | h
+      · cases v <;> simp at h
+      · cases v with
+        | blank => simp at h
+        | int n => simp at h
+        | text s =>
+          simp at h; subst h
+          exact listItems_spec s i ((mem_setOf _ _).mp hi)
+
+/-- `only_value_errors` for the package's converters: a well-formed request that uses them can only
+be ended by `ValueError`. -/
+theorem std_only_value_errors (cfg : Cfg StdV) (n : Nat) (hn : 0 < n) (s : Sheet)
+    (hrect : ∀ r ∈ s, r.length = n) (hct : ∀ r ∈ cfg.rules, ∀ ct, r.ct? = some ct → ct ≤ 8)
+    (hnum : cfg.numId ≤ cfg.rules.length)
+    (hanchor : ∃ t ct d, cfg.rules[0]? = some (.col t ct d) ∧ t ∈ titlesOf s)
+    (hkeys : ∀ k, k < cfg.numId → ∃ t ct d, cfg.rules[k]? = some (.col t ct d) ∧ t ∈ titlesOf s) :
+    (iterTable stdConv cfg s).err = none ∨ (iterTable stdConv cfg s).err = some .valueError :=
+  only_value_errors stdConv cfg n hn s hrect
+    ⟨fun r hr ct hc v e he => stdConv_error ct (hct r hr ct hc) v e he, hnum, hanchor, hkeys⟩
+
 /-! ## Non-vacuity: the hypotheses are satisfiable on concrete sheets (evaluated by the kernel) -/
 
 section examples
@@ -501,6 +624,19 @@ example : ∃ s', fillSheet .blankAll ladderSheet = .ok s' ∧ s' ≠ ladderShee
   rw [heq] at hs'
   revert hs'
   decide +kernel
+
+/-- the hypotheses of `std_only_value_errors` hold for this request -/
+example : (iterTable stdConv ⟨.blankAll, true, 1, ladderRules⟩ ladderSheet).err = none ∨
+    (iterTable stdConv ⟨.blankAll, true, 1, ladderRules⟩ ladderSheet).err = some .valueError := by
+  refine std_only_value_errors ⟨.blankAll, true, 1, ladderRules⟩ 3 (by decide) ladderSheet
+    (by decide +kernel) ?_ (by decide) ⟨"Id".toList, 1, none, rfl, by decide +kernel⟩ ?_
+  · intro r hr ct hc
+    simp only [ladderRules, List.mem_cons, List.not_mem_nil, or_false] at hr
+    rcases hr with rfl | rfl | rfl | rfl <;> simp [Rule.ct?] at hc <;> omega
+  · intro k hk
+    have : k = 0 := by simp only [] at hk; omega
+    subst this
+    exact ⟨"Id".toList, 1, none, rfl, by decide +kernel⟩
 
 private def rangeSheet : Sheet := mkSheet
   [[.blank, .blank, .blank, .blank],
